@@ -29,7 +29,11 @@ def cases(tier):
     for k in KINDS:
         for k2 in KINDS:
             out.append({'fn': 'run_history', 'id': f'{k}-{k2}', 'params': {'first': [k, k2], 'depth': depth,
-                                                                       'scopes': SCOPES if tier == 'thorough' else QUICK_SCOPES}})
+                                                                       'scopes': QUICK_SCOPES}})
+    if tier == 'thorough':
+        for k in KINDS:
+            for k2 in KINDS:
+                out.append({'fn': 'run_history', 'id': f'all-scopes/{k}-{k2}', 'params': {'first': [k, k2], 'depth': 3, 'scopes': SCOPES}})
     return out
 
 
